@@ -166,6 +166,74 @@ def _solve_index(args):
     return solve_text((i, text, ob.kind, thorough)) + (sha,)
 
 
+def _batch_external(name, cmd, texts, per_query_s):
+    """Run one external solver once over several queries (push / pop around each); returns a list of answers or None when the
+    output cannot be matched to the queries (then the caller falls back to one process per query)."""
+    body = ["(set-logic ALL)"]
+    for t in texts:
+        body.append("(push 1)")
+        body.append(t)
+        body.append("(pop 1)")
+    with tempfile.NamedTemporaryFile("w", suffix=".smt2", delete=False, dir=os.environ.get("PYVC_TMP") or None) as f:
+        f.write("\n".join(body) + "\n")
+        path = f.name
+    try:
+        p = subprocess.run(cmd + [path], capture_output=True, text=True, timeout=per_query_s * len(texts) + 30)
+        out = [ln.strip() for ln in (p.stdout or "").splitlines() if ln.strip() in ("sat", "unsat", "unknown", "timeout")]
+        if len(out) != len(texts):
+            return None
+        return [a if a in ("sat", "unsat") else "unknown" for a in out]
+    except subprocess.TimeoutExpired:
+        return None
+    finally:
+        try:
+            os.unlink(path)
+        except OSError:
+            pass
+
+
+def _solve_chunk(idxs):
+    """Thorough tier: decide each obligation with the quick portfolio, then cross-check the whole chunk with cvc5 and z3 4.8 in one
+    process each (batched push / pop), falling back to one process per query if a batch does not answer every query."""
+    import hashlib
+    res = []
+    texts = []
+    for i in idxs:
+        ob = _OBS[i]
+        text = to_smt2(ob)
+        sha = hashlib.sha1(text.encode()).hexdigest()[:16]
+        r = list(solve_text((i, text, ob.kind, False))) + [sha]
+        res.append(r)
+        texts.append(text)
+    todo = [k for k, i in enumerate(idxs) if _OBS[i].kind != "cover"]
+    if todo:
+        solvers = (("cvc5-1.0", ["/usr/bin/cvc5", "--lang=smt2", "--incremental", f"--tlimit-per={EXT_TIMEOUT_S * 1000}"]),
+                   ("z3-4.8", ["/usr/bin/z3", f"-t:{EXT_TIMEOUT_S * 1000}"]))
+        for name, cmd in solvers:
+            if not os.path.exists(cmd[0]):
+                continue
+            t0 = time.time()
+            ans = _batch_external(name, cmd, [texts[k] for k in todo], EXT_TIMEOUT_S)
+            if ans is None:
+                ans = []
+                for k in todo:
+                    single = ["/usr/bin/cvc5", "--lang=smt2", f"--tlimit={EXT_TIMEOUT_S * 1000}"] if name.startswith("cvc5") else ["/usr/bin/z3", f"-T:{EXT_TIMEOUT_S}"]
+                    ans.append(_run_external(single, texts[k], EXT_TIMEOUT_S + 5)[0])
+            per = round((time.time() - t0) / max(1, len(todo)), 3)
+            for k, a in zip(todo, ans):
+                r = res[k]
+                r[5] = list(r[5]) + [(name + "-batch", a, per)]
+                if r[1] == "undecided" and a in ("sat", "unsat"):
+                    r[1] = {"unsat": "discharged", "sat": "refuted"}[a]
+                    r[2] = name
+        for k in todo:
+            r = res[k]
+            answers = {a for (_, a, _) in r[5] if a in ("sat", "unsat")}
+            if len(answers) > 1:
+                r[6] = r[5]
+    return [tuple(r) for r in res]
+
+
 def discharge(obligations, thorough=False, workers=None):
     """Solve all obligations in a (forked) process pool; fills verdict/backend/time/model on each.  The SMT-LIB text of an
     obligation is produced inside the worker that solves it."""
@@ -175,15 +243,27 @@ def discharge(obligations, thorough=False, workers=None):
     workers = workers or WORKERS
     _OBS = obligations
     try:
-        idxs = [(i, thorough) for i in range(len(obligations))]
-        if len(idxs) <= 2 or workers <= 1:
-            results = [_solve_index(a) for a in idxs]
+        n = len(obligations)
+        import multiprocessing as mp
+        if thorough:
+            size = 40
+            chunks = [list(range(a, min(n, a + size))) for a in range(0, n, size)]
+            if len(chunks) <= 1 or workers <= 1:
+                results = [r for ch in chunks for r in _solve_chunk(ch)]
+            else:
+                results = []
+                with ProcessPoolExecutor(max_workers=workers, mp_context=mp.get_context("fork")) as ex:
+                    for rs in ex.map(_solve_chunk, chunks):
+                        results.extend(rs)
         else:
-            import multiprocessing as mp
-            results = []
-            with ProcessPoolExecutor(max_workers=workers, mp_context=mp.get_context("fork")) as ex:
-                for r in ex.map(_solve_index, idxs, chunksize=max(1, min(64, len(idxs) // (workers * 4) or 1))):
-                    results.append(r)
+            idxs = [(i, False) for i in range(n)]
+            if n <= 2 or workers <= 1:
+                results = [_solve_index(a) for a in idxs]
+            else:
+                results = []
+                with ProcessPoolExecutor(max_workers=workers, mp_context=mp.get_context("fork")) as ex:
+                    for r in ex.map(_solve_index, idxs, chunksize=max(1, min(64, n // (workers * 4) or 1))):
+                        results.append(r)
     finally:
         _OBS = None
     for idx, verdict, backend, secs, model, tried, cross, sha in results:
